@@ -120,9 +120,7 @@ def gen_prog(rng, name="p", depth=0, max_stmts=8, fid_base=0, p_flag=0.2, p_sub=
             # a flagged nested call whose inner nodes carry flags of their own is REFUSED at build (RuntimeError "already has
             # an activation", pinned by the repository's tests); generated now and then: the refusal, or inlining semantics
             both_ = sub_active and random.Random(rng.getrandbits(30)).random() < 0.2
-            # (no deeper nesting inside such a DAG: there the same unsupported combination is refused with a KeyError on the id of
-            #  a flag holder instead of the RuntimeError the repository's tests pin)
-            sub = gen_prog(rng, name="%s_s%d" % (name, len(subs)), depth=depth + 1, max_stmts=4, p_flag=(0.6 if both_ else p_flag), p_sub=(0.0 if both_ else p_sub * 0.6),
+            sub = gen_prog(rng, name="%s_s%d" % (name, len(subs)), depth=depth + 1, max_stmts=4, p_flag=(0.6 if both_ else p_flag), p_sub=p_sub * 0.6,
                            allow_flags=allow_flags and (not sub_active or both_), ctr=ctr)
             # where the nested describing function is defined: at module level, inside a function, or in a class
             # body; two nested DAGs may share their __name__ while living in different scopes
